@@ -12,6 +12,7 @@ from harness.props import c06, c10
 OBLIGATIONS = [
     "PgmVerif.C11_apply_acyclic", "PgmVerif.C11_hc_acyclic", "PgmVerif.C11_best_is_max", "PgmVerif.C11_loop_stops_below_eps",
     "PgmVerif.C11_hc_lists", "PgmVerif.C11_delta_exact", "PgmVerif.C11_hc_monotone",
+    "PgmVerif.C11_defaults_tie",
 ]
 PARTIAL = ["maximum-weight spanning tree optimality (networkx) is compared per case with the brute-force maximum of the Lean spec (<= 6 nodes)",
            "black-box runs with the real scores check the contract only (acyclic, lists, in-degree, score not lower than the start)",
@@ -243,10 +244,15 @@ def run_tree(case, drv):
     W = {}
     for a, b, w in case["wedges"]:
         W[(names[a], names[b])] = W[(names[b], names[a])] = float(Fraction(w))
-    df = pd.DataFrame({nm: pd.Categorical([0, 1, 0, 1]) for nm in names})
+    # columns with states that are neither 0..k-1 nor in order of first appearance; the weight function is handed the data columns
+    # and must see the data values themselves (a user-supplied callable need not be invariant under relabelling)
+    raw = {nm: [3 + (i % 2), 1, 3 + (i % 2), 7, 1, 7][: 4 + (i % 3)] + [1] * (2 - (i % 3)) for i, nm in enumerate(names)}
+    df = pd.DataFrame({nm: pd.Categorical(raw[nm]) for nm in names})
 
     def wfn(u, v):
-        return W[(u.name, v.name)]
+        same = [int(x) for x in list(u)] == raw[u.name] and [int(x) for x in list(v)] == raw[v.name]
+        w = W[(u.name, v.name)]
+        return w if same else 4.0 - w          # weights are in (0, 3.2): re-coded columns reverse the preference order
     root = case["root"]
     tags = dict(n=n, tan=case["tan"])
     try:
